@@ -78,7 +78,7 @@ def run(prop, tier, replay=None):
         mc_info["MC_Spy_blocking_control.cfg"] = "PublishTerminates violated, as it must be"
         print("TLC negative control: a publisher that only ever blocks on a full queue violates PublishTerminates in the model (expected)")
         # 2. scenarios
-        scenarios = fs.tlc_scenarios(work, ntlc, seed) + fs.gen_scenarios(seed, ngen)
+        scenarios = fs.tlc_scenarios(work, ntlc, seed) + fs.gen_scenarios(seed, ngen) + fs.flood_scenarios(seed)
     # 3. the real spyServer
     lines, wall = fs.replay(work, scenarios, prop, probes=probes)
     by_t = {}
@@ -86,7 +86,8 @@ def run(prop, tier, replay=None):
         by_t.setdefault(ln["t"], []).append(ln)
     print("replayed %d scenarios on the real spyServer (%d logged events) in %.1fs" % (len(scenarios), len(lines), wall))
     # 4. TLC explains (or not) every recorded line
-    first_bad, r = fs.validate(work, lines, prop)
+    flood_ids = [i + 1 for i, sc in enumerate(scenarios) if str(sc.get("src", "")).startswith("flood")]
+    first_bad, r = fs.validate(work, lines, prop, flood_ids)
     nrej = sum(1 for v in first_bad.values() if v is not None)
     print("trace validation: %d states, %.1fs, %d of %d traces with a line the specification cannot explain" % (
         r["distinct"], r["wall_s"], nrej, len(first_bad)))
@@ -150,6 +151,8 @@ def run(prop, tier, replay=None):
         "events": dict(acts), "scenario_sources": dict(Counter(sc.get("src") for sc in scenarios)),
         "scenarios_run_to_End": complete, "traces_fully_explained": len(first_bad) - nrej,
         "stalls_reproduced": dict(stalls), "rejected_lines": dict(rejects),
+        "floods": [dict(ln["a"], trace=ln["t"], stalled_out=any(x["ev"] == "Timeout" for x in by_t[ln["t"]]),
+                        ran_to_End=by_t[ln["t"]][-1]["ev"] == "End") for ln in lines if ln["ev"] == "FloodInfo"],
         "max_subscribers": max([sum(1 for x in tl if x["ev"] == "SubscribeCalled") for tl in by_t.values()] or [0]),
         "max_vaas": max([sum(1 for x in tl if x["ev"] == "PublishCalled") for tl in by_t.values()] or [0]),
         "known_findings_matched": getattr(verdict, "n_known", 0),
